@@ -730,8 +730,9 @@ def check_value(ctx, v, origin, light=False, repr_checks=True):
             ctx.check(repr_ok, "json-roundtrip-repr", mech("C11:roundtrip-repr:" + cname),
                       lambda: "repr of the JSON copy no longer describes x: %s" % ry[:400], **wit)
     if eq:
-        ctx.check(txt2 == txt or not jdiffs, "json-idempotent", mech("C11:second-generation-json-differs:" + cname),
-                  lambda: "to_json(read_json(to_json(x))) != to_json(x); fields: %r" % (jdiffs[:4],), **wit)
+        if not sdiffs:  # (a lost field is reported below, once per field)
+            ctx.check(txt2 == txt or not jdiffs, "json-idempotent", mech("C11:second-generation-json-differs:" + cname),
+                      lambda: "to_json(read_json(to_json(x))) != to_json(x); fields: %r" % (jdiffs[:4],), **wit)
         # silent loss: equal by ==, yet a stored field differs (one observation per value, one violation per distinct field)
         ctx.ok("json-roundtrip-structure")
         seen = set()
